@@ -82,6 +82,8 @@ COMMANDS = [
     ('listbad', 'peer * announce route 10.12.1.0/24 next-hop 2.2.2.2 community [ 1:2 bogus ]', 'announce route 10.12.1.0/24 next-hop 2.2.2.2 community [ 1:2 bogus ]', 'error', None),
     ('flow', 'peer * announce flow route { match { destination 10.13.0.0/24; } then { discard; } }', 'announce flow route { match { destination 10.13.0.0/24; } then { discard; } }', 'done', ('add', FLOW_NLRI, ALL)),
     ('flowbad', 'peer * announce flow route { match { destination 10.14.0.0/24; source-port =80; } then { bogus; } }', 'announce flow route { match { destination 10.14.0.0/24; source-port =80; } then { bogus; } }', 'error', None),
+    # an inline group whose selector matches no neighbor: whatever the reply, nobody may be changed
+    ('inlinenone', 'peer 127.0.0.9 group announce route 10.9.2.0/24 next-hop 2.2.2.2 ; announce route 10.9.3.0/24 next-hop 2.2.2.2', None, None, None),
     ('show', 'rib show out', 'show adj-rib out', 'done', None),
     ('version', 'system version', 'version', 'done', None),
     ('comment', '# peer * announce route 10.3.0.0/24 next-hop 2.2.2.2', '# announce route 10.3.0.0/24 next-hop 2.2.2.2', 'done', None),
@@ -98,8 +100,8 @@ COMMANDS = [
 ]
 # the commands every sequence length is crossed over / the ones only crossed up to length 2 (with everything)
 CORE = ('annA', 'wdrA', 'annB1', 'ann6', 'badval', 'badsyntax', 'nonexthop', 'unknown', 'nopeer', 'eor', 'flush', 'ping')
-PARSE3 = ('nested', 'nestedbad', 'listbad', 'flow', 'flowbad', 'annA', 'annA2', 'annB1', 'wdrA', 'attrs2', 'attrsbad')
-STATEFUL = ('annN2', 'annA2', 'nested', 'nestedbad', 'listbad', 'flow', 'flowbad', 'clear', 'attrs2', 'attrsbad', 'split', 'inline', 'inline1', 'show', 'version', 'comment', 'empty', 'gstart', 'gend', 'bare', 'barewd', 'barebad', 'ackoff', 'ackon', 'silence')
+PARSE3 = ('inlinenone', 'nested', 'nestedbad', 'listbad', 'flow', 'flowbad', 'annA', 'annA2', 'annB1', 'wdrA', 'attrs2', 'attrsbad')
+STATEFUL = ('inlinenone', 'annN2', 'annA2', 'nested', 'nestedbad', 'listbad', 'flow', 'flowbad', 'clear', 'attrs2', 'attrsbad', 'split', 'inline', 'inline1', 'show', 'version', 'comment', 'empty', 'gstart', 'gend', 'bare', 'barewd', 'barebad', 'ackoff', 'ackon', 'silence')
 BLOCK3 = ('gstart', 'gend', 'bare', 'barewd', 'barebad', 'annA', 'wdrA', 'unknown', 'ackoff', 'ackon', 'silence')
 BLOCK4 = ('gstart', 'gend', 'bare', 'barewd', 'barebad', 'annA')
 MANY = '\n'.join(f'peer * announce route 10.{100 + i // 250}.{i % 250}.0/24 next-hop 2.2.2.2' for i in range(120))
@@ -490,12 +492,17 @@ def selector_cases(tier):
             if (i * 31 + j) % step == 0:
                 out.append(('list', f'peer [{t1}, {t2}]', e1 | e2))
     out.append(('plain', 'peer *', frozenset(NEIGHBORS)))
+    out += [(form + '+group', prefix, exp) for form, prefix, exp in out if form in ('plain', 'bracket')]
     return out
 
 
 def run_selector(args):
     form, prefix, expected = args
-    line = f'{prefix} announce route 10.7.0.0/24 next-hop 2.2.2.2\n'
+    if form.endswith('+group'):
+        # the same selector in front of a one-line group of two announces
+        line = f'{prefix} group announce route 10.7.0.0/24 next-hop 2.2.2.2 ; announce route 10.7.1.0/24 next-hop 2.2.2.2\n'
+    else:
+        line = f'{prefix} announce route 10.7.0.0/24 next-hop 2.2.2.2\n'
     with World(CFG, env={'api.version': 6}) as wd:
         wd.settle()
         wd.api_write(line.encode())
@@ -515,6 +522,8 @@ def run_selector(args):
         star = 'wildcard' if '*' in prefix else 'address'
         viols.append((f'selector:{form}:{star}:{kind}', f'`{prefix} announce ...` changed {sorted(got)}, the neighbors matching every term are {sorted(expected)}'))
     want_reply = ['done'] if expected else ['error']
+    if form.endswith('+group') and not expected and terms in (['done'], ['error']):
+        terms = want_reply  # a group for nobody may be answered either way: one terminal reply is what is asked
     if got == expected and terms != want_reply:
         viols.append((f'selector-reply:{form}:{want_reply[0]}->{terms}', f'`{prefix} announce ...` matched {sorted(expected)} and was answered {terms}'))
     return viols, (form, len(got), tuple(terms))
